@@ -37,6 +37,9 @@ func typeTag(goType string) string {
 	return strings.ReplaceAll(goType, " ", "_")
 }
 
+// goTypedNil: canonVal of `(*int) nil`, `(map[string]int) nil`, `([]string) 0xc000012345`, `(func()) nil`, `(chan int) nil`
+var goTypedNil = regexp.MustCompile(`^\((\*int|map\[string\]int|\[\]string|func\(\)|chan_int)\)_(?:nil|0x[0-9a-f]+)$`)
+
 var (
 	strText = regexp.MustCompile(`^p\d+$`)
 	errText = regexp.MustCompile(`^e\d+$`)
@@ -106,6 +109,16 @@ func canonLines(stdout string) []string {
 			continue
 		}
 		if strings.HasPrefix(l, "rec ") {
+			// `rec <%v> |<%T>` (generated programs): value and dynamic type of what recover() returned
+			if i := strings.LastIndex(l, " |"); i >= 4 {
+				v := canonVal(l[4:i])
+				t := typeTag(l[i+2:])
+				if strings.HasPrefix(v, "fault:") {
+					t = "fault" // the values of run-time faults are not the Go runtime's (F06-5): kinds only
+				}
+				out = append(out, "rec_"+v+"|"+t)
+				continue
+			}
 			out = append(out, "rec_"+canonVal(l[4:]))
 			continue
 		}
@@ -194,7 +207,7 @@ func runYaegiSrc(src, entryCall string, timeout time.Duration) obs {
 		if p, ok := r.err.(interp.Panic); ok {
 			o.Status = "panic:" + canonVal(fmt.Sprint(p.Value))
 			o.HostType = fmt.Sprintf("%T", p.Value)
-			if fmt.Sprint(p.Value) == "<nil>" || p.Value == nil {
+			if p.Value == nil { // (a typed nil prints <nil> too, but it is a value: its type is observed)
 				o.Status = "panic:?"
 			}
 		} else {
@@ -231,6 +244,19 @@ func runYaegiProg(p Prog, timeout time.Duration) obs {
 // goObsTyped: the observation of a compiled program of the mini-language, with the type tag of the value it died with.
 func goObsTyped(g common.GoResult) obs {
 	o := goObs(g)
+	if m := goTypedNil.FindStringSubmatch(strings.TrimPrefix(o.Status, "panic:")); m != nil && strings.HasPrefix(o.Status, "panic:") {
+		// the toolchain prints a typed nil it died with as `(T) nil` (`(T) 0x…` for a slice: the address of its header)
+		t := strings.ReplaceAll(m[1], "_", " ")
+		text := "<nil>"
+		switch {
+		case strings.HasPrefix(t, "map["):
+			text = "map[]"
+		case strings.HasPrefix(t, "[]"):
+			text = "[]"
+		}
+		o.Status = "panic:" + text + ":" + typeTag(t)
+		return o
+	}
 	o.Status = typed(o.Status, tagOfText(strings.TrimPrefix(o.Status, "panic:")))
 	return o
 }
